@@ -79,7 +79,16 @@ def run(ctx):
                 for e in stp["events"]:
                     if e["call"] == "opendir" and not e["path"].endswith(".kismet_temp") and not e["err"]:
                         maintained_dirs.add(e["path"] + "/.kismet_temp")
-            old = [l.split(" ")[0] for l in r3.snaps[-1] if l.split(" ")[1] == "f" and ".kismet_temp/" in l.split(" ")[0] and l.split(" ")[0].rsplit("/", 1)[0] in maintained_dirs]
+            old = [l.split(" ")[0] for l in r3.snaps[-1] if l.split(" ")[1] == "f" and ".kismet_temp/" in l.split(" ")[0] and l.split(" ")[0].rsplit("/", 1)[0] in maintained_dirs
+                   and not l.split(" ")[0].endswith("/ahead")]
+            # the temp file a peer with a fast clock is still writing (modification time in the maintainer's
+            # future) is young: every one planted before the maintenance must still be there
+            planted = [l.split(" ")[1] for l in L3 if l.startswith("plant ") and l.split(" ")[1].endswith("/ahead")]
+            left = {l.split(" ")[0] for l in r3.snaps[-1]}
+            reaped = [p for p in planted if p not in left]
+            if reaped:
+                violations.append({"what": "a temporary file whose modification time lies in the maintainer's future (a peer's clock runs ahead) was removed by maintenance: %s" % reaped,
+                                   "classification": {"kind": "future-temp-removed"}, "replay": replay})
             if old:
                 violations.append({"what": "debris older than the limit survived maintenance of its directory: %s" % old, "classification": {"kind": "old-debris-kept"}, "replay": replay})
         if len(samples) < 4 and nontrivial:
